@@ -615,6 +615,12 @@ fn malformed_authenticated(c: &Creds, g: &mut Gen, which: u64) -> (String, Vec<u
     match c.proto {
         Proto::Shadowsocks if is_2022(&c.cipher) => {
             let salt = g.bytes(key_len(&c.cipher));
+            if which % 5 == 4 {
+                // a correct request whose authenticated timestamp is an extreme of the 64-bit field
+                let ts = *g.pick(&[0u64, 1, 1 << 31, 1 << 32, 1 << 62, i64::MAX as u64, 1 << 63, (1 << 63) + 1, u64::MAX - 1, u64::MAX]);
+                let var = [addr.socks(), vec![0, 0], b"payload-under-an-extreme-timestamp".to_vec()].concat();
+                return ("2022-extreme-timestamp".to_owned(), refimpl::ss2022::request_raw_var(&c.cipher, &c.client_keys, &salt, &var, 0, ts, None));
+            }
             let (name, var, declared): (&str, Vec<u8>, Option<u16>) = match which % 8 {
                 0 => ("2022-bad-address-type", vec![9, 1, 2, 3, 4, 0, 80, 0, 0, b'x'], None),
                 1 => ("2022-truncated-address", vec![1, 127, 0], None),
@@ -649,6 +655,16 @@ fn malformed_authenticated(c: &Creds, g: &mut Gen, which: u64) -> (String, Vec<u
             g.fill(&mut r.body_key);
             // well-sealed header, correct first chunk, then a chunk that is wrong inside (size field below the padding, below
             // padding + tag, zero, far beyond what follows) - under every length encoding (plain, masked, authenticated)
+            if which % 7 == 6 {
+                let time = *g.pick(&[i64::MIN, i64::MIN + 1, -1, 0, 1 << 40, i64::MAX - 1, i64::MAX]);
+                let h = refimpl::vmess::header_bytes(&r);
+                let mut rnd = [0u8; 12];
+                g.fill(&mut rnd);
+                let mut w = refimpl::vmess::seal_header(&c.client_cmd_key, time, rnd[..4].try_into().unwrap(), rnd[4..].try_into().unwrap(), &h);
+                let mut body = refimpl::vmess::request_body(&r);
+                w.extend(body.write(b"payload-under-an-extreme-auth-time", 1900));
+                return ("vmess-extreme-auth-time".to_owned(), w);
+            }
             let sel = if which % 3 == 2 { g.below(20) } else { 99 };
             if sel < 12 {
                 let variant = sel % 6;
@@ -1009,8 +1025,10 @@ pub fn execute_c07(plan: &Plan) -> Outcome {
                         if is_2022(&c.cipher) && g.chance(50) {
                             // raw bodies: padding length beyond the datagram, nothing after the fixed part, address cut short
                             let mut body = vec![0u8];
-                            body.extend_from_slice(&unix_now().to_be_bytes());
-                            match g.below(5) {
+                            let ts = if g.chance(30) { *g.pick(&[0u64, 1 << 32, i64::MAX as u64, 1 << 63, u64::MAX]) } else { unix_now() };
+                            body.extend_from_slice(&ts.to_be_bytes());
+                            match g.below(6) {
+                                5 => body.extend_from_slice(&[0, 0, 1, 127, 0, 66, 1, 0x19, 0xc9, b'x']),
                                 0 => body.extend_from_slice(&[0xff, 0xff, 1, 2, 3]),
                                 1 => body.extend_from_slice(&[0, 9, 1]),
                                 2 => body.extend_from_slice(&[0, 0]),
